@@ -515,14 +515,14 @@ PROBES = {"D11": [("parity", c) for c in _D11_PROBES], "D27": [("parity", _D27_P
 
 SUBS = [
     Sub("parity", check_parity, strategy=_parity_cases, quick=288, thorough=4000, shards=12, shrink_quick=False,
-        floors={"nt": 0.091, "all_pairs_occur": 1.0, "predictors>=3": 0.25, "ratio<1": 0.1, "grid>=20": 0.2,
+        floors={"nt": 0.091, "all_pairs_occur": 0.9, "predictors>=3": 0.25, "ratio<1": 0.1, "grid>=20": 0.2,
                 "m:DemographicParity": 0.08, "m:TruePositiveRateParity": 0.077, "m:FalsePositiveRateParity": 0.08,
                 "m:EqualizedOdds": 0.075, "m:ErrorRateParity": 0.066, "groups4": 0.1, "selected_not_min_error": 0.1,
                 }),
     Sub("parity_wide_grid", check_parity, strategy=_wide_grid_cases, quick=192, thorough=2000, shards=12, shrink_quick=False,
         floors={"dummy_used": 0.054, "dummy_with_nonzero_gamma": 0.012}),
     Sub("parity_missing_pair", check_parity_missing, strategy=_missing_cases, quick=40, thorough=800, shards=4,
-        shrink_quick=False, floors={"missing_pair": 1.0, "predictors>=3": 0.05}),
+        shrink_quick=False, floors={"missing_pair": 0.9, "predictors>=3": 0.05}),
     Sub("bgl", check_bgl, strategy=_bgl_cases, quick=60, thorough=1200, shards=6, shrink_quick=False,
-        floors={"bgl": 1.0, "labels_constant": 0.02, "nt": 0.2, "predictors>=3": 0.3, "groups3": 0.1, "groups4": 0.1}),
+        floors={"bgl": 0.9, "labels_constant": 0.02, "nt": 0.2, "predictors>=3": 0.3, "groups3": 0.1, "groups4": 0.1}),
 ]
